@@ -350,8 +350,13 @@ def main():
     level = MANIFEST_LEVELS.get(prop, "other")
     samples = [dict(obligation=oid, status=o["status"]) for oid, o in list(sorted(summ.items()))[:: max(1, len(summ) // 6)]][:8]
     cov = dict(
-        obligations=n_obl,
+        # `obligations` counts the obligations the claim rests on: every generated obligation EXCEPT the clause halves that a
+        # contract splits off for a recorded known finding (they are refuted on purpose, reported by KNOWN-FINDING lines and
+        # counted separately below); so on a clean run discharged == obligations, and a new refutation or an undecided
+        # obligation makes discharged < obligations
+        obligations=n_obl - kf_obl,
         discharged=n_dis,
+        obligations_generated=n_obl,
         refuted_known_findings=kf_obl,
         refuted_new=len([v for v in violations if not v[2].startswith("rtc:")]),
         undecided=len(undecided),
@@ -370,7 +375,7 @@ def main():
         evaluations=max(rtc_eval, 1) if bounded else n_obl,
         distinct_nontrivial=rtc_distinct if bounded else n_dis,
         rule="proof obligations: one per (function, contract clause, structure); bounded tier: see bounded[*].bounds.nontrivial_rule",
-        explanation="tier P/L: %d proof obligations generated from the real source, %d discharged (unbounded in sizes/contents within the stated structure bounds); tier B (bounded, NOT proof): %d run-time contract evaluations on the real functions" % (n_obl, n_dis, rtc_eval),
+        explanation="tier P/L: %d proof obligations generated from the real source, %d of them split off as recorded known findings (refuted, see known_findings), %d discharged (unbounded in sizes/contents within the stated structure bounds); tier B (bounded, NOT proof): %d run-time contract evaluations on the real functions" % (n_obl, kf_obl, n_dis, rtc_eval),
         exhaustive=False,
         known_findings=known_lines,
         selftests=ev_cov,
